@@ -35,7 +35,7 @@ func RandTime(r *core.Rand) time.Time {
 	case 0, 1:
 		return time.Time{}
 	case 2:
-		return time.Unix(0, int64(1+r.Intn(1000))) // just after the epoch
+		return time.Unix(0, []int64{1, 2, 999, 1000}[r.Intn(4)]) // just after the epoch
 	case 3:
 		return time.Unix(int64(1+r.Intn(4_000_000_000)), 0).In(zones[r.Intn(len(zones))])
 	default:
